@@ -24,6 +24,7 @@ from __future__ import annotations
 import copy
 import errno
 import itertools
+import os
 import re
 import threading
 import types
@@ -290,7 +291,17 @@ def run_case(case, mode="replay") -> str:
     fake_os = types.SimpleNamespace(getpid=w.me, path=saved["os"].path)
     threads = []
     toks = []
+
+    def foreign_open(path, *a, **kw):
+        # the protocol as modelled talks to the outside world only through the four primitives; anything else
+        # (e.g. another source of "is the owner alive?") is recorded in the trace and answered "no such file"
+        w.cur.append("!open:" + str(path if not isinstance(path, bytes) else path.decode("latin1")) + ";")
+        raise FileNotFoundError(errno.ENOENT, "No such file or directory")
+
+    had_open = "open" in vars(lockfile)
+    saved_open = vars(lockfile).get("open")
     try:
+        lockfile.open = foreign_open
         lockfile.symlink, lockfile.readlink, lockfile.kill, lockfile.rmlink = w.symlink, w.readlink, w.kill, w.rmlink
         lockfile.os = fake_os
         lockfile._windows = False
@@ -346,6 +357,10 @@ def run_case(case, mode="replay") -> str:
                 t.join(timeout=2)
         for k, v in saved.items():
             setattr(lockfile, k, v)
+        if had_open:
+            lockfile.open = saved_open
+        else:
+            del lockfile.open
     link = w.fs.get(NAME)
     extra = sorted(k for k in w.fs if k != NAME)
     out = " ".join(toks) + " |L=" + ("None" if link is None else f"Some({link})")
@@ -399,7 +414,158 @@ def expand(obs: str, sched) -> str:
 
 
 def impl(case) -> str:
+    if case.get("kind") == "realproc":
+        return realproc_impl(case)
     return compact(run_case(case, "replay"), case["sched"])
+
+
+# --------------------------------------------------------------------------------------------------
+# real processes, real filesystem, real pids (no patching at all): {"kind": "realproc", "scenario": ...}
+#   "thread-holder"   the holder is a live process whose MAIN thread has exited (raw exit syscall) while a worker
+#                     thread holds the lock: kill(pid,0) succeeds, /proc/<pid>/stat shows the leader as 'Z'
+#   "plain-holder"    an ordinary live single-threaded holder
+#   "dead-holder"     the holder exits without unlocking and is reaped: a stale lock, to be broken
+# The contender is this process calling the real lock().  Not modelled in Coq (oracle only).
+
+_HOLDER = r"""
+import ctypes, os, platform, sys, threading
+from twisted.python import lockfile
+name, scenario = sys.argv[1], sys.argv[2]
+def say(b):
+    os.write(1, b)
+def work():
+    fl = lockfile.FilesystemLock(name)
+    if not fl.lock():
+        say(b"X"); os._exit(2)
+    say(b"L")
+    if scenario == "dead-holder":
+        os._exit(0)
+    os.read(0, 2)
+    try:
+        fl.unlock()
+    except BaseException:
+        say(b"E")
+    else:
+        say(b"U")
+    os._exit(0)
+if scenario == "thread-holder":
+    nr = {"x86_64": 60, "aarch64": 93, "i686": 1, "i386": 1, "armv7l": 1}.get(platform.machine())
+    if nr is None:
+        say(b"S"); os._exit(0)
+    threading.Thread(target=work).start()
+    ctypes.CDLL(None, use_errno=True).syscall(nr, 0)      # ends the calling (main) thread only
+    os._exit(99)
+work()
+"""
+
+
+def realproc_impl(case) -> str:
+    import shutil
+    import subprocess
+    import sys
+    import tempfile
+    import time
+
+    from twisted.python import lockfile
+
+    if not sys.platform.startswith("linux"):
+        return "SKIP"
+    d = tempfile.mkdtemp(prefix="verif_c50_")
+    name = os.path.join(d, "the.lock")
+    sc = case["scenario"]
+    h = subprocess.Popen([sys.executable, "-c", _HOLDER, name, sc], stdin=subprocess.PIPE, stdout=subprocess.PIPE,
+                         env=dict(os.environ))
+    out = []
+    try:
+        first = os.read(h.stdout.fileno(), 1)
+        if first == b"S":
+            return "SKIP"
+        if first != b"L":
+            return "setup-failed:" + first.decode("latin1")
+        if sc == "dead-holder":
+            h.wait(timeout=10)
+            alive = False
+        else:
+            time.sleep(0.3)                       # let the holder's main thread finish exiting
+            try:
+                os.kill(h.pid, 0)
+                alive = h.poll() is None
+            except OSError:
+                alive = False
+        out.append("alive=" + ("T" if alive else "F"))
+        if sc == "thread-holder":
+            try:
+                with open(f"/proc/{h.pid}/stat", "rb") as f:
+                    out.append("leader=" + f.read().rpartition(b")")[2].split()[0].decode())
+            except OSError:
+                out.append("leader=?")
+        contender = lockfile.FilesystemLock(name)
+        got = contender.lock()
+        out.append("got=" + ("T" if got else "F") + ("" if not got else "1" if contender.clean else "0"))
+        try:
+            owner = os.readlink(name)
+        except OSError:
+            owner = "-"
+        out.append("link=" + ("holder" if owner == str(h.pid) else "contender" if owner == str(os.getpid()) else owner))
+        if sc != "dead-holder":
+            os.write(h.stdin.fileno(), b"go")
+            res = os.read(h.stdout.fileno(), 1)
+            out.append("release=" + (res.decode("latin1") or "?"))
+            h.wait(timeout=10)
+            if not got:
+                again = contender.lock()
+                out.append("then=" + ("T" if again else "F"))
+                if again:
+                    contender.unlock()
+        if got:
+            try:
+                contender.unlock()
+                out.append("unlock=ok")
+            except (ValueError, OSError) as e:
+                out.append("unlock=" + type(e).__name__)
+    finally:
+        try:
+            h.kill()
+        except OSError:
+            pass
+        try:
+            h.wait(timeout=5)
+        except Exception:
+            pass
+        for s in (h.stdin, h.stdout):
+            try:
+                s.close()
+            except Exception:
+                pass
+        shutil.rmtree(d, ignore_errors=True)
+    return sc + " " + " ".join(out)
+
+
+def realproc_oracle(case, obs):
+    if obs == "SKIP":
+        return None
+    if obs.startswith("setup-failed"):
+        return Failure(case, "the holder process could not acquire a free lock path: " + obs, "realproc-setup")
+    f = dict(x.split("=", 1) for x in obs.split(" ")[1:])
+    sc = case["scenario"]
+    if sc == "dead-holder":
+        if f.get("got") != "T0" or f.get("link") != "contender" or f.get("unlock") != "ok":
+            return Failure(case, "a lock left by a dead (reaped) process was not acquired with clean=False and released: "
+                           + obs, "realproc-stale-not-acquired")
+        return None
+    if f.get("alive") != "T":
+        return Failure(case, "harness: the holder process is not alive: " + obs, "realproc-setup")
+    if f.get("got", "").startswith("T"):
+        return Failure(case, "lock() returned True in this process while a LIVE process (kill(pid,0) succeeds"
+                       + (", main thread exited, a worker thread holds the lock" if sc == "thread-holder" else "")
+                       + ") still holds the lock: two holders -- " + obs, "realproc-two-live-holders:" + sc)
+    if f.get("link") != "holder":
+        return Failure(case, "the live holder's link was disturbed by a refused lock(): " + obs, "realproc-link-disturbed")
+    if f.get("release") != "U":
+        return Failure(case, "the live holder could not release its lock: " + obs, "realproc-release")
+    if f.get("then") != "T":
+        return Failure(case, "the lock was not acquirable after the holder released it: " + obs, "realproc-not-reacquired")
+    return None
 
 
 # --------------------------------------------------------------------------------------------------
@@ -407,6 +573,8 @@ def impl(case) -> str:
 
 
 def oracle(case, obs):
+    if case.get("kind") == "realproc":
+        return realproc_oracle(case, obs)
     dead = set(case["dead"])
     obs = expand(obs, case["sched"])
     head = obs.split(" |")[0]
@@ -438,6 +606,11 @@ def oracle(case, obs):
         body = t[len(str(p)):]
         if body == "x":
             continue
+        if "!open:" in body:
+            m = re.search(r"!open:([^;]*);", body)
+            return Failure(case, f"step {k} ({toks[k]}): lock()/unlock() consulted the outside world through something other "
+                           f"than symlink/readlink/kill/rmlink: open({m.group(1)!r}) -- a source of the 'owner is dead' verdict "
+                           "outside the modelled protocol (kill(pid,0) = ESRCH); see the real-process cases", "foreign-io")
         left, _, r = body.partition("=")
         ret = "=" + r if r else ""
         # a primitive on another path (a repaired protocol may use guard files) has no effect on the lock path
@@ -520,6 +693,8 @@ def oracle(case, obs):
 
 
 def in_known_class(case) -> bool:
+    if case.get("kind") == "realproc":
+        return False
     """the input class whose handling a repair of the finding changes: a stale link at the start (the finding
     itself needs two live contenders, but a repaired stale-lock path takes other steps for one contender too)"""
     return case["l0"] is not None and case["l0"] in case["dead"]
@@ -541,6 +716,9 @@ F21 = {"n": 2, "dead": [2], "l0": 2, "sched": [0, 0, 0, 1, 1, 1, 1, 1, 0, 0, 1, 
 
 def corpus():
     return [
+        {"kind": "realproc", "scenario": "thread-holder"},
+        {"kind": "realproc", "scenario": "plain-holder"},
+        {"kind": "realproc", "scenario": "dead-holder"},
         # daemonisation: object built by the launcher (pid 2, exited), locked by the surviving child 0; 1 contends
         {"n": 2, "dead": [2], "l0": None, "sched": [0, 1, 1, 1, 1, 1, 0, 0], "cas": False, "made_by": {"0": 2}},
         # pre-forking server: 0 holds, forked worker 1 calls unlock() on the inherited object, 2 contends
@@ -614,6 +792,8 @@ def gen(rng, tier):
 
 
 def to_coq(case):
+    if case.get("kind") == "realproc":
+        return None
     nat = lambda v: f"{v}%nat"
     held = case.get("held")
     return (f"({coq_list(map(nat, case['dead']), 'nat')}, {coq_bool(bool(case.get('cas')))}, {nat(case['n'])}, "
@@ -624,18 +804,24 @@ def to_coq(case):
 
 
 def shrink(case):
+    if case.get("kind") == "realproc":
+        return
     s = case["sched"]
     for i in range(len(s)):
         yield {**case, "sched": s[:i] + s[i + 1:]}
 
 
 def _hist(c, o):
+    if c.get("kind") == "realproc":
+        return "real processes: " + c["scenario"]
     l0 = "free" if c["l0"] is None else "stale" if c["l0"] in c["dead"] else "live-link"
     fork = " fork" if c.get("held") is not None or c.get("ustart") or c.get("made_by") else ""
     return f"n={c['n']} {l0}{' cas-sim' if c.get('cas') else ''}{fork}"
 
 
 def _describe(c):
+    if c.get("kind") == "realproc":
+        return c
     try:
         return {**c, "trace": expand(impl(c), c["sched"])}
     except Exception as e:  # evidence text only
@@ -648,7 +834,7 @@ def extra(ctx):
 
     rng = random.Random(ctx.seed + 50)
     pool = gen(rng, "quick")
-    sample = corpus() + rng.sample(pool, 150 if ctx.tier == "quick" else 1500)
+    sample = [c for c in corpus() if c.get("kind") != "realproc"] + rng.sample(pool, 150 if ctx.tier == "quick" else 1500)
     bad = [c for c in sample if run_case(c, "threads") != run_case(c, "replay")]
     if bad:
         raise AssertionError(f"thread-stepped and replay-stepped runs of the real code differ on {bad[0]}")
